@@ -1133,10 +1133,15 @@ def example(it):
     return d
 
 
+ONLY_MNEMONICS = None       # directed runs (C19): only the entries of these mnemonics
+
+
 def collect(limit=None, log=lambda *a: None):
     """instantiate, compile, disassemble, compare → [Inst]"""
     tab = table()
     entries = tab[:limit] if limit else tab
+    if ONLY_MNEMONICS is not None:
+        entries = [e for e in entries if e["m"] in ONLY_MNEMONICS]
     bym = by_mnemonic()
     insts, seen = [], {}
     per_entry = collections.Counter()
